@@ -224,3 +224,44 @@ def run_frame(prog, pred=None):
                            "%s calls itself (%d site(s)) without passing a frame check or a stack-growth point: recursion depth is controlled by the %s and "
                            "overflows the native stack (SIGABRT) instead of reporting a stack-overflow error" % (short_path(p), len(unguarded), why or "input")))
     return obs, [Floor(RULE2, "self-recursive functions", n, 12 if pred is None else 1)], {"self_recursive_functions": n}
+
+
+VIEW_ACCESSORS = ("get", "get_lazy", "get_cheap", "is_cheap", "len")
+
+
+def run_views(prog):
+    """R-FRAME(view): an ArrayLike accessor of a view type that forwards to an accessor of its inner ArrValue recurses once per level
+    of view nesting (the inner value may be another view); nesting depth is program data (a + [x] in a loop, repeated slicing,
+    reversing, mapping), so the forwarding call has to sit behind a frame check / stack-growth point."""
+    RULE2 = "R-FRAME"
+    obs = []
+    per_type = {}
+    for p, f in sorted(prog.fns.items()):
+        if f.kind == "Closure" or not f.impl_trait or not f.impl_trait.endswith("arr::spec::ArrayLike"):
+            continue
+        m = p.rsplit("::", 1)[1]
+        if m not in VIEW_ACCESSORS:
+            continue
+        hosts = [f] + [c for c in prog.fns.values() if c.kind == "Closure" and c.root == p]
+        guarded = guarded_closures(prog, hosts)
+        for h in hosts:
+            for b, t in h.calls():
+                c = t.get("fn") or ""
+                if c.startswith("jrsonnet_evaluator::arr::ArrValue::") and c.rsplit("::", 1)[1] in VIEW_ACCESSORS and not h.is_cleanup(b) and b in h.live_blocks:
+                    # `len` of the inner array from a non-len accessor does not nest (len is not forwarded by views that cache it) unless the type's own len forwards
+                    if c.endswith("::len") and m != "len":
+                        continue
+                    ok_here = any(h.path == x or h.path.startswith(x + "::") for x in guarded)
+                    per_type.setdefault(f.self_ty, []).append((m, c.rsplit("::", 1)[1], ok_here, f, t["line"]))
+    for ty, calls in sorted(per_type.items()):
+        key = "view:%s" % short_path(ty)
+        bad_calls = [c for c in calls if not c[2]]
+        f = calls[0][3]
+        if not bad_calls:
+            obs.append(ok(RULE2, key, site(f), "%d forwarding accessor call(s), all behind a frame check" % len(calls)))
+        else:
+            obs.append(bad(RULE2, key, site(bad_calls[0][3], bad_calls[0][4]),
+                           "%s forwards %s to the inner array without a frame check or stack-growth point: views nest as deep as the program makes them "
+                           "(e.g. `a + [x]` in a fold, repeated slicing / reversing / mapping), and reading one element overflows the native stack"
+                           % (short_path(ty), ", ".join(sorted({"%s->%s" % (c[0], c[1]) for c in bad_calls})))))
+    return obs, [Floor(RULE2, "array view types forwarding accessors", len(per_type), 4)], {"view_types": len(per_type)}
